@@ -250,6 +250,8 @@ func init() {
 			callableRules(c)
 			packageCall(c)
 			reflectKinds(c, "callable.go")
+			funcOfArity(c, "callable.go")
+			noRecover(c, "callable.go")
 			c.errPolarity("Call")
 			out := c.sel(func(o *an.Oblig) bool { return isUndecided(o) || o.Rule == "ANCHOR" })
 			return append(out, c.C.List...)
@@ -885,5 +887,108 @@ func typeNilableRule(c *Ctx) {
 					pickS(got == want, "true for Chan, Func, Interface, Map, Pointer, Slice, UnsafePointer and false for the other 20 kinds", "typeNilable answers wrongly for kind(s) "+strings.Join(diff, ", ")+": an untyped nil would be accepted for a type that has no nil (Call would invoke the function with a zero value instead of returning an error) or rejected for one that has"))
 			}
 		}
+	}
+}
+
+// funcOfArity: reflect.FuncOf panics ("too many arguments") when len(in)+len(out) exceeds 128, whatever the types are.
+// Every FuncOf in the file is therefore reached only where the length of its (single) non-nil type list was compared
+// against a constant and found to be at most 128. (A precondition of the reflect call, like the kind preconditions of
+// RK: a function or argument list of 129 entries must be answered with an error, not a panic.)
+func funcOfArity(c *Ctx, inFile string) {
+	P := c.P
+	n := 0
+	for _, fn := range P.Funcs {
+		if !strings.Contains(P.Pos(fn.Pos()), inFile) {
+			continue
+		}
+		q := &fq{c: c, fn: fn, name: an.FuncName(fn)}
+		for _, site := range P.CallsTo(fn, "reflect.FuncOf") {
+			n++
+			cc := an.CallCommonOf(site)
+			var lists []ssa.Value
+			for _, a := range cc.Args[:2] {
+				if !isNilConst(a) {
+					lists = append(lists, a)
+				}
+			}
+			if len(lists) == 0 {
+				q.add("RV", "reflect.FuncOf is given at most 128 types", true, "no type list", site)
+				continue
+			}
+			if len(lists) > 1 {
+				q.undecided("RV", "reflect.FuncOf is given at most 128 types", "both type lists are non-empty: their sum is not bounded by this rule", site)
+				continue
+			}
+			// the len(list) reads the function makes (of the same value, through cells and temporaries)
+			srcs := map[ssa.Value]bool{}
+			for _, s := range P.Sources(lists[0]) {
+				srcs[s] = true
+			}
+			ok := false
+			for _, ln := range an.AllInstrs(fn, func(in ssa.Instruction) bool {
+				call, isC := in.(*ssa.Call)
+				if !isC {
+					return false
+				}
+				b, isB := call.Call.Value.(*ssa.Builtin)
+				if !isB || b.Name() != "len" {
+					return false
+				}
+				for _, s := range P.Sources(call.Call.Args[0]) {
+					if !srcs[s] {
+						return false
+					}
+				}
+				return true
+			}) {
+				d := P.Lin(ln.(*ssa.Call)).AddC(-128)
+				got := P.PathCond(fn, nil, site, keepForms(d))
+				if len(got) == 0 {
+					continue
+				}
+				if imp, _ := an.ImpliesDNF(got, an.DNF{conj(lit(d, an.SNeg|an.SZero))}); imp {
+					ok = true
+				}
+			}
+			q.add("RV", "reflect.FuncOf is given at most 128 types", ok, pickS(ok, "reached only where len(list) <= 128 was established", "reflect.FuncOf panics for more than 128 types and nothing bounds the list: a call with 129 arguments (or a function with 129 results) panics instead of returning an error"), site)
+		}
+	}
+	if n == 0 {
+		c.C.Undecided("RV", inFile, "reflect.FuncOf", "no reflect.FuncOf call found in "+inFile+": the thunk construction changed, re-confirm")
+	}
+}
+
+// noRecover: "only a panic raised by the called function itself propagates" - and it does propagate: nothing in the
+// file recovers. (A recover around the invocation cannot tell the function's own panic from the library's.) The
+// detector is the one that finds the package's only recover (chanpubsub.go), which is the rule's positive control.
+func noRecover(c *Ctx, inFile string) {
+	P := c.P
+	isRecover := func(in ssa.Instruction) bool {
+		cc := an.CallCommonOf(in)
+		if cc == nil {
+			return false
+		}
+		b, ok := cc.Value.(*ssa.Builtin)
+		return ok && b.Name() == "recover"
+	}
+	total := 0
+	for _, fn := range P.AllFuncs() {
+		sites := an.AllInstrs(fn, isRecover)
+		if len(sites) == 0 {
+			continue
+		}
+		if an.IsTransparent(fn) {
+			continue // reported with its host
+		}
+		total += len(sites)
+		if !strings.Contains(P.Pos(fn.Pos()), inFile) {
+			continue
+		}
+		q := &fq{c: c, fn: fn, name: an.FuncName(fn)}
+		q.add("PATH", "a panic of the called function propagates", false, "recover() in "+inFile+": a panic raised by the called function (or by anything else) is swallowed or converted", sites...)
+	}
+	q := c.F("(*callable).Call")
+	if q.ok() {
+		q.add("PATH", "a panic of the called function propagates", total > 0, pickS(total > 0, "no recover() in "+inFile+" (the detector sees the package's other recover sites)", "the recover detector found no site in the whole package: its positive control is gone, re-confirm"))
 	}
 }
